@@ -499,12 +499,9 @@ def r5(repo, chk):
     clr2 = [st for st, t, v in wh.assigns(chain="self._probe_pending") if isinstance(v, ast.Constant) and v.value is False]
     chk.ob("R5", "_write_handshake clears the probe allowance when it sends crypto data or a probe PING", len(clr2) >= 2, "", wh.loc(wh.node))
     sf = Fn(repo, "quic.packet_builder:QuicPacketBuilder.start_frame")
-    rs = sf.raises("QuicPacketBuilderStop")
-    ok = False
-    for r in rs:
-        t = norm(r._parent.test) if isinstance(r._parent, ast.If) else ""
-        if "frame_type not in NON_IN_FLIGHT_FRAME_TYPES" in t and "self.remaining_flight_space < capacity" in t.replace("capacity > self.remaining_flight_space", "self.remaining_flight_space < capacity"):
-            ok = True
+    from rules import c01 as _c01
+
+    ok, _why = _c01.start_frame_refusal(repo)
     chk.ob("R5", "start_frame refuses an in-flight frame type when the flight budget is smaller than its capacity", ok, "", sf.loc(sf.node))
     pm = repo.mod("quic.packet")
     nif = repo.const(pm, pm.assigns.get("NON_IN_FLIGHT_FRAME_TYPES"))
